@@ -61,6 +61,9 @@ var c19Menu = []c19Meta{
 	{"A-entry-field-case", []byte(`{"perm_channels":[{"PORT_ID":"transfer","Channel_Id":"channel-2"}]}`)},
 	{"N-top-level-array", []byte(`[` + c19Entry("channel-1") + `]`)},
 	{"N-not-json", []byte(`perm_channels: channel-1`)},
+	{"N-valid-object-then-more-bytes", []byte(`{"perm_channels":[` + c19Entry("channel-2") + `]}{"note":"v2"}`)},
+	{"N-valid-object-then-comma", []byte(`{"perm_channels":[` + c19Entry("channel-1") + `]},`)},
+	{"N-truncated", []byte(`{"perm_channels":[` + c19Entry("channel-1"))},
 	{"N-other-object", []byte(`{"name":"my bridge"}`)},
 	{"N-wrong-type", []byte(`{"perm_channels":"channel-1"}`)},
 	{"empty", nil},
@@ -208,7 +211,9 @@ func (y *c19Sys) Root() *c19State {
 	return &c19State{ctx: w.Ctx, w: w}
 }
 
-func (y *c19Sys) Digest(s *c19State) [32]byte { return s.w.Digest(s.ctx) }
+// the model is part of the state key: a change that turns an operation into a no-op on the stores must
+// not make the successor look like an already visited state (its model differs, and Check has to see it)
+func (y *c19Sys) Digest(s *c19State) [32]byte { return s.w.Digest(s.ctx, []byte(fmt.Sprint(s.br))) }
 
 func (y *c19Sys) Letters(s *c19State) []engine.Letter {
 	var ls []engine.Letter
